@@ -71,3 +71,10 @@ func TestReduceBadEnd(t *testing.T) {
 		PanicType: slip.TypeErrorSymbol,
 	}).Test(t)
 }
+
+func TestReduceKeyKeepsSequence(t *testing.T) {
+	(&sliptest.Function{
+		Source: `(let ((seq (list 1 2 3))) (list (reduce #'+ seq :key #'1+) seq))`,
+		Expect: "(9 (1 2 3))",
+	}).Test(t)
+}
